@@ -856,10 +856,16 @@ func (in *Interp) containsAll(l, search *ListV) (Val, *Err) {
 		in.unspec("list ~ list with a failing element")
 		return nil, err
 	}
+	more := len(look) > len(els)
 	for _, v := range els {
 		for i, lf := range look {
 			eq, err := in.Equal(lf, v)
 			if err != nil {
+				if more {
+					// a materialised right operand with fewer items answers false before any element
+					// is compared, a lazy one compares first: false or the error
+					in.unspec("list ~ list with incomparable elements where the size alone decides")
+				}
 				return nil, err
 			}
 			if eq {
